@@ -50,6 +50,8 @@ class Module:
             self.tree = ast.parse(source, filename=rel)
         except SyntaxError as e:  # the tree must at least compile
             raise AnalysisError("cannot parse %s: %s" % (rel, e))
+        from .canon import canonicalise
+        self.renamed = canonicalise(self.tree, rel)  # local names back to the reference spelling
         self.name = rel[:-3].replace("/", ".")
         if self.name.endswith(".__init__"):
             self.name = self.name[: -len(".__init__")]
@@ -386,7 +388,8 @@ def run_rules(repo: Repo, propmod, tier: str, only_rule: str = None) -> Ctx:
             tb = traceback.format_exc(limit=6)
             raise AnalysisError("%s: analyser raised %s: %s\n%s" % (rule.id, type(e).__name__, e, tb))
         n = len(ctx.instances) - before
-        if n < rule.floor:
+        has_violation = any(i.status == "violation" for i in ctx.instances)  # the run reports a violation anyway
+        if n < rule.floor and not has_violation:  # a reported violation legitimately short-circuits later instances
             raise AnalysisError(
                 "%s: only %d rule instances examined, floor is %d (rule would pass vacuously)"
                 % (rule.id, n, rule.floor)
@@ -397,6 +400,8 @@ def run_rules(repo: Repo, propmod, tier: str, only_rule: str = None) -> Ctx:
 
 def write_evidence(propmod, ctx: Ctx, tier: str, seed: int, wall: float, n_viol: int,
                    known_hit: list, selftest: Optional[dict], error: Optional[str] = None):
+    if os.environ.get("SA_NO_EVIDENCE"):  # scratch runs against another tree (SA_REPO) must not touch the evidence
+        return None
     os.makedirs(EVIDENCE_DIR, exist_ok=True)
     insts = ctx.instances if ctx else []
     per_rule = {}
